@@ -357,9 +357,18 @@ pub fn run(a: &Args) -> Option<Report> {
         let burst = if all_emit { (budget / nemit).max(1).min(20) } else { 1 };
         let behaviours: Vec<&'static str> = (0..nclients).map(|i| if i == 0 { "reader" } else { *r.pick(&["reader", "reader", "staller", "closer", "resetter", "late"]) }).collect();
         let mut clients: Vec<Client> = Vec::new();
+        let mut half_closed: Vec<usize> = Vec::new();
         for (i, b) in behaviours.iter().enumerate() {
             if *b != "late" {
                 if let Some(c) = connect_client(i, addr, b, 0) {
+                    // some reading clients finish their sending half right away (they never send anything anyway) and
+                    // keep reading: they are accepted, reading clients like any other
+                    if *b == "reader" && r.chance(1, 3) {
+                        if let Some(s_) = c.stream.as_ref() {
+                            let _ = s_.shutdown(Shutdown::Write);
+                            half_closed.push(i);
+                        }
+                    }
                     clients.push(c);
                 }
             }
@@ -375,6 +384,9 @@ pub fn run(a: &Args) -> Option<Report> {
         let act_at: Vec<usize> = (0..nclients).map(|_| 1 + r.usize(nbursts - 1)).collect();
         let mut stalled_out = false;
         let mut trace: Vec<String> = vec![format!("buffer_size={:?} clients={:?} emitters={} bursts={}x{}", buffer_size, behaviours, nemit, nbursts, burst)];
+        if !half_closed.is_empty() {
+            trace.push(format!("clients {:?} shut down their sending half after connecting and keep reading", half_closed));
+        }
         // in half of the scenarios one metric is described again (other unit and text) at the start of a burst: clients
         // accepted in a later burst must be sent the new description, earlier ones the old one
         let redesc_at: Option<usize> = if r.chance(1, 2) { Some(1 + r.usize(nbursts - 1)) } else { None };
@@ -1020,6 +1032,110 @@ impl FrameCounter {
     }
 }
 
+/// More described metrics than the per-client buffer holds, metrics flowing all the time, clients joining: every new
+/// client is first sent all the metadata known when it connected (the frames queued for it at connect time are not
+/// "older messages of a slow client").
+fn many_metadata(rep: &mut Report, r: &mut Rng) {
+    let port = {
+        let l = TcpListener::bind("127.0.0.1:0").unwrap();
+        l.local_addr().unwrap().port()
+    };
+    let addr: SocketAddr = format!("127.0.0.1:{}", port).parse().unwrap();
+    let buf = *r.pick(&[4usize, 8]);
+    let rec = match TcpBuilder::new().listen_address(addr).buffer_size(Some(buf)).build() {
+        Ok(r) => Arc::new(r),
+        Err(e) => {
+            rep.inconclusive(format!("build failed: {:?}", e));
+            return;
+        }
+    };
+    std::thread::sleep(Duration::from_millis(20));
+    let nmeta = 40usize;
+    for i in 0..nmeta {
+        rec.describe_counter(KeyName::from(format!("m{:02}", i)), None, SharedString::from("d"));
+        std::thread::sleep(Duration::from_millis(2)); // descriptions share the bounded channel
+    }
+    let mut base = match connect_client(0, addr, "reader", 0) {
+        Some(c) => c,
+        None => {
+            rep.inconclusive("could not connect");
+            return;
+        }
+    };
+    let mut fc = FrameCounter { off: 0, count: 0 };
+    let t = Instant::now();
+    while t.elapsed() < Duration::from_secs(5) && fc.advance(&base.buf) < nmeta {
+        std::thread::sleep(Duration::from_millis(1));
+    }
+    if fc.count < nmeta {
+        rep.inconclusive("the first client did not receive all descriptions (some were refused by the bounded channel)");
+    }
+    let known = fc.count; // what the exporter knows (the first client, connected to an idle exporter, was sent it all)
+    // emitter paced by the base client's acknowledgements: at most two metrics in flight
+    let stop = Arc::new(AtomicBool::new(false));
+    let acked = Arc::new(std::sync::atomic::AtomicUsize::new(known));
+    let emitter = {
+        let (rec, stop, acked) = (rec.clone(), stop.clone(), acked.clone());
+        std::thread::spawn(move || {
+            let mut sent = 0usize;
+            while !stop.load(Ordering::SeqCst) {
+                if sent + known < acked.load(Ordering::SeqCst) + 2 {
+                    let key = Key::from_parts("m00", vec![Label::new("emitter", "0"), Label::new("seq", sent.to_string())]);
+                    rec.register_counter(&key, &MD).increment(1);
+                    sent += 1;
+                } else {
+                    std::thread::yield_now();
+                }
+            }
+        })
+    };
+    let mut bad: Option<J> = None;
+    let mut joined = 0u64;
+    for ci in 0..10usize {
+        acked.store(fc.advance(&base.buf), Ordering::SeqCst);
+        let mut c = match connect_client(20 + ci, addr, "reader", 0) {
+            Some(c) => c,
+            None => continue,
+        };
+        let mut cfc = FrameCounter { off: 0, count: 0 };
+        let t2 = Instant::now();
+        while t2.elapsed() < Duration::from_secs(3) && cfc.advance(&c.buf) < known + 3 {
+            acked.store(fc.advance(&base.buf), Ordering::SeqCst);
+            std::thread::sleep(Duration::from_millis(1));
+        }
+        c.stop.store(true, Ordering::SeqCst);
+        if let Some(s_) = c.stream.take() {
+            let _ = s_.shutdown(Shutdown::Both);
+        }
+        if let Some(h) = c.reader.take() {
+            let _ = h.join();
+        }
+        let b = c.buf.lock().unwrap().clone();
+        if let Ok((frames, _)) = deframe(&b) {
+            let lead = frames.iter().take_while(|f| matches!(f, Frame::Metadata { .. })).count();
+            let has_metric = frames.iter().any(|f| matches!(f, Frame::Metric { .. }));
+            joined += 1;
+            if has_metric && lead < known && bad.is_none() {
+                bad = Some(jo! {"what" => "a client that connected while metrics were flowing was sent metrics before (or instead of) part of the metadata known when it connected", "metadata_frames_first" => lead, "metadata_known" => known, "frames_received" => frames.len(), "buffer_size" => format!("Some({})", buf), "client_index" => ci});
+            }
+        }
+    }
+    stop.store(true, Ordering::SeqCst);
+    let _ = emitter.join();
+    base.stop.store(true, Ordering::SeqCst);
+    if let Some(s_) = base.stream.take() {
+        let _ = s_.shutdown(Shutdown::Both);
+    }
+    if let Some(h) = base.reader.take() {
+        let _ = h.join();
+    }
+    rep.count("clients_joined_with_many_descriptions", joined);
+    rep.case(mix(buf as u64, known as u64 + 4000), true);
+    if let Some(d) = bad {
+        rep.violation("C11:metadata-not-first-or-incomplete:more-descriptions-than-buffer", d);
+    }
+}
+
 /// Wake-ups that carry no metric (describe calls) arriving back to back while (a) a client with a parked backlog starts
 /// reading again and (b) new clients connect. Socket readiness is edge-triggered, so an event the transport drops is not
 /// reported again: bounded progress with a discriminator — if nothing moves for 3 s and everything arrives right after
@@ -1030,6 +1146,7 @@ fn run_events(a: &Args) -> Report {
     let mut r = Rng::new(a.shard_seed());
     let scenarios = a.budget(2, 40);
     for sc in 0..scenarios {
+        many_metadata(&mut rep, &mut r);
         let port = {
             let l = TcpListener::bind("127.0.0.1:0").unwrap();
             l.local_addr().unwrap().port()
